@@ -172,6 +172,15 @@ fn main() {
             run_case(&mut rec, &json!({"shape": shape, "style": st}));
         }
     }
+    // a few display-scale shapes (fill / stroke areas of 140 and more; the hit tests themselves are C05's business,
+    // which has many more of these - the set-based predicate of C06 is expensive on 20 000-point sets)
+    for (shape, st) in [(json!({"k":"circle","tl":[-70, -3],"d":140}), style_desc(col.fill, -1, 0, 1)),
+                        (json!({"k":"circle","tl":[-60, 9],"d":146}), style_desc(col.fill, col.stroke, 3, 0)),
+                        (json!({"k":"circle","tl":[5, -90],"d":140}), style_desc(-1, col.stroke, 7, 2)),
+                        (json!({"k":"ellipse","tl":[-9, -70],"size":[150, 141]}), style_desc(col.fill, col.stroke, 4, 1)),
+                        (json!({"k":"rrect","r":[-80, 2, 160, 150],"radii":[[60, 50], [20, 70], [90, 75], [5, 40]]}), style_desc(col.fill, col.stroke, 5, 1))] {
+        run_case(&mut rec, &json!({"shape": shape, "style": st}));
+    }
     for (n, s) in shapes.iter().enumerate() {
         for (k, st) in styles.iter().enumerate() {
             // quick: a rotating quarter of the style product for every shape; thorough: full product
